@@ -1,20 +1,29 @@
 #!/bin/bash
-# usage: tools/detect_all.sh [PropId ...]   run every detect/<id>/*.diff through tools/detect.sh, write detect/RESULTS.md
+# usage: [DETECT_PAR=4] tools/detect_all.sh [PropId ...]
+# Runs every detect/<id>/*.diff and seeded/<id>/patch.diff through tools/detect.sh (overlay; /repo is
+# not touched) and writes detect/RESULTS.md. Partial runs (ids given) are merged into the existing file.
 cd "$(dirname "$0")/.."
 ids=${*:-$(ls detect | grep '^C')}
 out=detect/RESULTS.md
-tmp=$(mktemp)
+tmp=$(mktemp -d)
+one() { # <id> <diff>
+  id=$1; d=$2
+  name=$(basename "$d"); case "$d" in seeded/*) name="seeded/$id/patch.diff";; esac
+  res=$(./tools/detect.sh "$id" "$d" 2>&1 | grep -E "^(DETECTED|NOT DETECTED)|^  key=" | sort -u | head -6 | tr '\n' ' ')
+  echo "| $id | $name | $res |"
+}
+export -f one
 for id in $ids; do
-  for d in detect/$id/*.diff; do
-    [ -f "$d" ] || continue
-    res=$(./tools/detect.sh "$id" "$d" 2>&1 | grep -E "^(DETECTED|NOT DETECTED)|^  key=" | tr '\n' ' ')
-    echo "| $id | $(basename "$d") | $res |" | tee -a "$tmp"
-  done
-done
-{ echo "# Detection runs (tools/detect_all.sh, $(date -u +%FT%TZ))"; echo; echo "| property | mutation | result |"; echo "|---|---|---|"; sort "$tmp"; } > "$out.new"
-if [ $# -gt 0 ] && [ -f "$out" ]; then # partial run: merge with previous results
-  { head -4 "$out.new"; { grep '^| C' "$out" | grep -v -F -f <(cut -d'|' -f2,3 "$tmp" | sed 's/^/|/') ; cat "$tmp"; } | sort -u; } > "$out.m"; mv "$out.m" "$out"; rm -f "$out.new"
+  for d in detect/$id/*.diff seeded/$id/patch.diff; do [ -f "$d" ] && echo "$id $d"; done
+done | xargs -P "${DETECT_PAR:-4}" -L 1 bash -c 'one $0 $1' | tee "$tmp/rows"
+{ echo "# Detection runs (tools/detect_all.sh, $(date -u +%FT%TZ))"; echo
+  echo "Every row: the property's check run (quick tier) against /repo plus the diff, through the build overlay."
+  echo "DETECTED = the check printed a VIOLATION line for that property and exited 1."; echo
+  echo "| property | change | result |"; echo "|---|---|---|"; } > "$tmp/head"
+if [ $# -gt 0 ] && [ -f "$out" ]; then
+  { cat "$tmp/head"; { grep '^| C' "$out" | grep -v -F -f <(cut -d'|' -f2,3 "$tmp/rows" | sed 's/^/|/'); cat "$tmp/rows"; } | sort -u; } > "$out.m"; mv "$out.m" "$out"
 else
-  mv "$out.new" "$out"
+  { cat "$tmp/head"; sort "$tmp/rows"; } > "$out"
 fi
-rm -f "$tmp"
+rm -rf "$tmp"
+grep -c "| DETECTED" "$out" | sed 's/^/detected rows: /'; grep "NOT DETECTED" "$out" | sed 's/^/MISS: /'
